@@ -5,17 +5,17 @@
    are design-level findings; they are printed (<<"DIFF", class, sync, async>>) and, when listed in
    KnownDiff (predicates over the class = the known-finding signatures), tolerated. *)
 EXTENDS Naturals, TLC, Json
-VARIABLES c, pcS, nS, wS, bS, fS, rS, pS, pcA, nA, wA, bA, fA, rA, pA
-S == INSTANCE WireFrame WITH Async <- FALSE, pc <- pcS, nreply <- nS, wrote <- wS, buffered <- bS, fscalls <- fS, ret <- rS, panic <- pS
-A == INSTANCE WireFrame WITH Async <- TRUE, pc <- pcA, nreply <- nA, wrote <- wA, buffered <- bA, fscalls <- fA, ret <- rA, panic <- pA
-varsS == <<pcS, nS, wS, bS, fS, rS, pS>>
-varsA == <<pcA, nA, wA, bA, fA, rA, pA>>
+VARIABLES c, pcS, nS, wS, bS, fS, rS, pS, kS, pcA, nA, wA, bA, fA, rA, pA, kA
+S == INSTANCE WireFrame WITH Async <- FALSE, pc <- pcS, nreply <- nS, wrote <- wS, buffered <- bS, fscalls <- fS, ret <- rS, panic <- pS, rkind <- kS
+A == INSTANCE WireFrame WITH Async <- TRUE, pc <- pcA, nreply <- nA, wrote <- wA, buffered <- bA, fscalls <- fA, ret <- rA, panic <- pA, rkind <- kA
+varsS == <<pcS, nS, wS, bS, fS, rS, pS, kS>>
+varsA == <<pcA, nA, wA, bA, fA, rA, pA, kA>>
 Init == S!Init /\ A!Init
 Next == \/ (pcS # "done" /\ S!Next /\ UNCHANGED varsA)
         \/ (pcS = "done" /\ pcA # "done" /\ A!Next /\ UNCHANGED varsS)
 Spec == Init /\ [][Next]_<<c, varsS, varsA>>
 BothDone == pcS = "done" /\ pcA = "done"
-Same == nS = nA /\ rS = rA /\ fS = fA
+Same == nS = nA /\ rS = rA /\ fS = fA /\ kS = kA
 \* the places where async_handle_message is written differently (each is a C20 finding signature)
 KnownDiff ==
   c.op = "WRITE" /\ c.body = "size_gt_max"                            \* async_write refuses size > MAX_BUFFER_SIZE (known finding)
